@@ -1595,6 +1595,24 @@ func (sp *Spec) AnalyzeLitSeed(pkg *packages.Package, lit *ast.FuncLit, seed fun
 	return sp.run(pkg, lit.Type, lit.Body, sp.W.LitCFG(pkg, lit), sp.Depth, st)
 }
 
+// AnalyzeSeed runs the engine over f from an entry state prepared by seed (facts about parameters).
+func (sp *Spec) AnalyzeSeed(f *core.FuncInfo, seed func(*State)) *Result {
+	st := newState()
+	if seed != nil {
+		seed(st)
+	}
+	return sp.run(f.Pkg, f.Decl.Type, f.Decl.Body, sp.W.CFG(f), sp.Depth, st)
+}
+
+// SetBool seeds a boolean fact.
+func (s *State) SetBool(o types.Object, v bool) {
+	if v {
+		s.Bool[o] = isTrue
+	} else {
+		s.Bool[o] = isFalse
+	}
+}
+
 // SetNil seeds a nil-ness fact.
 func (s *State) SetNil(o types.Object, isnil bool) {
 	if isnil {
